@@ -23,7 +23,7 @@ N_CORPUS = 24     # cases of the min_fill-suboptimal corpus (10 graphs each)
 
 def plan(tier, seed):
     if tier == 'quick':
-        return dict(n=EX_CHUNKS + 60 + 30 + 6, budget_s=70, case_timeout=200)
+        return dict(n=EX_CHUNKS + 120 + 60 + 6, budget_s=70, case_timeout=200)
     return dict(n=EX_CHUNKS + 40000 + 6000 + N_CORPUS, budget_s=840, case_timeout=400)
 
 
@@ -170,8 +170,8 @@ def run_case(tier, seed, index, spec=None):
     viols, keys, counters = [], [], {}
     evals = 0
     feats = set()
-    nrand = 60 if tier == 'quick' else 40000
-    nfam = 30 if tier == 'quick' else 6000
+    nrand = 120 if tier == 'quick' else 40000
+    nfam = 60 if tier == 'quick' else 6000
     if spec is not None:
         adj = {k: set(v) for k, v in spec.items()}
         judge(F, adj, viols, dict(replay=True), counters)
